@@ -951,6 +951,225 @@ fn check_inner(doc: &Doc, st: &mut Stats) -> CheckResult {
   Ok(())
 }
 
+// ---------------------------------------------------------------------------------------
+// references: every `matches` resolves, wherever it is written: in the body of a global utility
+// rule, in its local utils and constraints, in the rule that uses them, in `stopBy`,
+// `nthChild.ofRule` and in the rules of a fix expansion
+
+#[derive(Clone, Debug, Serialize, Deserialize)]
+pub struct RefCase {
+  /// global utility documents (YAML), in file order
+  pub globals: Vec<String>,
+  pub rule: String,
+  /// where the first unresolved reference sits: "global" | "rule" | none
+  pub unresolved_in_globals: Option<String>,
+  pub unresolved_in_rule: Option<String>,
+}
+
+#[derive(Clone, Debug)]
+pub struct RefChoice {
+  globals: Vec<(u8, u8, Vec<(u8, u8)>, Option<u8>)>,
+  rule: (u8, u8, Vec<(u8, u8)>, Option<u8>),
+  expand: Option<(u8, u8)>,
+}
+
+pub fn ref_strategy() -> BoxedStrategy<RefChoice> {
+  let doc = || (0u8..9, 0u8..12, prop::collection::vec((0u8..9, 0u8..12), 0..=2), prop::option::weighted(0.25, 0u8..12));
+  (prop::collection::vec(doc(), 0..=3), doc(), prop::option::weighted(0.4, (0u8..3, 0u8..12)))
+    .prop_map(|(globals, rule, expand)| RefChoice { globals, rule, expand })
+    .boxed()
+}
+
+/// body shapes; `r` is the referenced name
+fn ref_body(shape: u8, kind: &str, r: &str) -> String {
+  match shape {
+    0 => format!("{{kind: {kind}}}"),
+    1 => format!("{{kind: {kind}, matches: {r}}}"),
+    2 => format!("{{any: [{{kind: {kind}}}, {{matches: {r}}}]}}"),
+    3 => format!("{{all: [{{kind: {kind}}}, {{not: {{matches: {r}}}}}]}}"),
+    4 => format!("{{kind: {kind}, has: {{matches: {r}, stopBy: end}}}}"),
+    5 => format!("{{kind: {kind}, nthChild: {{position: 1, ofRule: {{matches: {r}}}}}}}"),
+    6 => format!("{{kind: {kind}, inside: {{kind: arguments, stopBy: {{matches: {r}}}}}}}"),
+    7 => format!("{{kind: {kind}, follows: {{any: [{{matches: {r}}}, {{kind: number}}]}}}}"),
+    _ => format!("{{pattern: $A, kind: {kind}}}"),
+  }
+}
+
+pub fn interpret_refs(ch: &RefChoice, _st: &mut Stats) -> Option<RefCase> {
+  let kinds = ["number", "identifier", "string", "call_expression"];
+  let n = ch.globals.len();
+  let mut unresolved_g = None;
+  let mut unresolved_r = None;
+  // names a reference may take: globals after `i` (acyclic by construction), locals after `a`,
+  // and names that are defined nowhere
+  let pick = |r: u8, i: usize, locals: usize, after_local: usize| -> (String, bool) {
+    let mut pool: Vec<(String, bool)> = vec![];
+    for j in i + 1..n {
+      pool.push((format!("g{j}"), true));
+    }
+    for b in after_local..locals {
+      pool.push((format!("loc{b}"), true));
+    }
+    pool.push(("nope".into(), false));
+    pool.push((format!("g{}", n + 3), false));
+    if pool.len() < 4 {
+      // more defined-looking names than undefined ones when nothing is defined
+      pool.push(("loc7".into(), false));
+    }
+    // defined names are preferred two to one
+    let defined: Vec<&(String, bool)> = pool.iter().filter(|p| p.1).collect();
+    if !defined.is_empty() && r % 3 != 0 {
+      return defined[r as usize / 3 % defined.len()].clone();
+    }
+    pool[r as usize % pool.len()].clone()
+  };
+  let mut render = |idx: usize, id: &str, d: &(u8, u8, Vec<(u8, u8)>, Option<u8>), unresolved: &mut Option<String>| -> String {
+    let (shape, r, locals, constraint) = d;
+    let nl = locals.len();
+    let (name, ok) = pick(*r, idx, nl, 0);
+    let uses_ref = !matches!(shape, 0 | 8);
+    if uses_ref && !ok && unresolved.is_none() {
+      *unresolved = Some(format!("`matches: {name}` in the rule of {id}"));
+    }
+    let mut y = format!("id: {id}\nlanguage: JavaScript\nrule: {}\n", ref_body(*shape, kinds[idx % 4], &name));
+    if nl > 0 {
+      y.push_str("utils:\n");
+      for (a, (ls, lr)) in locals.iter().enumerate() {
+        let (lname, lok) = pick(*lr, idx, nl, a + 1);
+        let shape = if *ls == 8 { 0 } else { *ls };
+        if shape != 0 && !lok && unresolved.is_none() {
+          *unresolved = Some(format!("`matches: {lname}` in the local util loc{a} of {id}"));
+        }
+        y.push_str(&format!("  loc{a}: {}\n", ref_body(shape, kinds[(idx + a + 1) % 4], &lname)));
+      }
+    }
+    if let (Some(c), 8) = (constraint, shape) {
+      let (cname, cok) = pick(*c, idx, nl, 0);
+      if !cok && unresolved.is_none() {
+        *unresolved = Some(format!("`matches: {cname}` in a constraint of {id}"));
+      }
+      y.push_str(&format!("constraints:\n  A: {{matches: {cname}}}\n"));
+    }
+    y
+  };
+  let globals: Vec<String> = ch.globals.iter().enumerate().map(|(i, d)| render(i, &format!("g{i}"), d, &mut unresolved_g)).collect();
+  // the using rule may name every global: index "-1"
+  let pick_rule = |r: u8, locals: usize, after_local: usize| -> (String, bool) {
+    let mut pool: Vec<(String, bool)> = (0..n).map(|j| (format!("g{j}"), true)).collect();
+    for b in after_local..locals {
+      pool.push((format!("loc{b}"), true));
+    }
+    let defined = pool.len();
+    pool.push(("nope".into(), false));
+    pool.push((format!("g{}", n + 3), false));
+    if defined > 0 && r % 3 != 0 {
+      return pool[r as usize / 3 % defined].clone();
+    }
+    pool[r as usize % pool.len()].clone()
+  };
+  let (shape, r, locals, constraint) = &ch.rule;
+  let nl = locals.len();
+  let (name, ok) = pick_rule(*r, nl, 0);
+  if !matches!(shape, 0 | 8) && !ok {
+    unresolved_r = Some(format!("`matches: {name}` in the rule"));
+  }
+  let mut rule = format!("id: user\nlanguage: JavaScript\nrule: {}\n", ref_body(*shape, "number", &name));
+  if nl > 0 {
+    rule.push_str("utils:\n");
+    for (a, (ls, lr)) in locals.iter().enumerate() {
+      let (lname, lok) = pick_rule(*lr, nl, a + 1);
+      let shape = if *ls == 8 { 0 } else { *ls };
+      if shape != 0 && !lok && unresolved_r.is_none() {
+        unresolved_r = Some(format!("`matches: {lname}` in the local util loc{a}"));
+      }
+      rule.push_str(&format!("  loc{a}: {}\n", ref_body(shape, kinds[(a + 1) % 4], &lname)));
+    }
+  }
+  if let (Some(c), 8) = (constraint, shape) {
+    let (cname, cok) = pick_rule(*c, nl, 0);
+    if !cok && unresolved_r.is_none() {
+      unresolved_r = Some(format!("`matches: {cname}` in a constraint"));
+    }
+    rule.push_str(&format!("constraints:\n  A: {{matches: {cname}}}\n"));
+  }
+  if let Some((form, r)) = ch.expand {
+    let (ename, eok) = pick_rule(r, nl, 0);
+    if !eok && unresolved_r.is_none() {
+      unresolved_r = Some(format!("`matches: {ename}` in a fix expansion"));
+    }
+    match form {
+      0 => rule.push_str(&format!("fix:\n  template: x\n  expandEnd: {{matches: {ename}}}\n")),
+      1 => rule.push_str(&format!("fix:\n  template: x\n  expandStart: {{regex: ',', stopBy: {{matches: {ename}}}}}\n")),
+      _ => rule.push_str(&format!("fix:\n  template: x\n  expandEnd: {{any: [{{regex: ','}}, {{not: {{matches: {ename}}}}}]}}\n")),
+    }
+  }
+  Some(RefCase {
+    globals,
+    rule,
+    unresolved_in_globals: unresolved_g,
+    unresolved_in_rule: unresolved_r,
+  })
+}
+
+pub fn check_refs(case: &RefCase, st: &mut Stats) -> CheckResult {
+  use ast_grep_config::DeserializeEnv;
+  st.eval();
+  let all = case.globals.join("---\n");
+  let show = || format!("--- global utility rules\n{all}--- rule\n{}", case.rule);
+  let parsed: Result<Vec<_>, _> = case
+    .globals
+    .iter()
+    .map(|g| ast_grep_config::from_str(g))
+    .collect();
+  let Ok(utils) = parsed else {
+    fail!("bad-case", "generated global utility does not deserialize\n{}", show());
+  };
+  let globals = match catch(|| DeserializeEnv::<SupportLang>::parse_global_utils(utils)) {
+    Ok(Ok(g)) => g,
+    Ok(Err(_)) => {
+      if case.unresolved_in_globals.is_some() {
+        st.label("perturbed_violating_document");
+        st.label("rejected_as_required");
+        st.nontrivial(&("refs", &all, &case.rule));
+      } else {
+        st.label("consistent_document_rejected(not claimed)");
+      }
+      return Ok(());
+    }
+    Err(p) => fail!(panic_signature(&p), "panic while loading global utility rules\n{}\n{p}", show()),
+  };
+  if let Some(what) = &case.unresolved_in_globals {
+    st.label("perturbed_violating_document");
+    st.nontrivial(&("refs", &all, &case.rule));
+    fail!("C12:accepted-inconsistent-rule:unresolved-matches-in-global-utility", "{what} does not resolve but the global utility rules were accepted\n{}", show());
+  }
+  match catch(|| from_yaml_string::<SupportLang>(&case.rule, &globals)) {
+    Ok(Ok(_)) => {
+      if let Some(what) = &case.unresolved_in_rule {
+        st.label("perturbed_violating_document");
+        st.nontrivial(&("refs", &all, &case.rule));
+        let class = if what.contains("fix expansion") { "unresolved-matches-in-fix-expansion" } else { "unresolved-matches" };
+        fail!(format!("C12:accepted-inconsistent-rule:{class}"), "{what} does not resolve but the rule was accepted\n{}", show());
+      }
+      st.label("accepted_document");
+      if st.wants_sample() {
+        st.sample(json!({"globals": case.globals, "rule": case.rule, "verdict": "accepted"}));
+      }
+    }
+    Ok(Err(_)) => {
+      if case.unresolved_in_rule.is_some() {
+        st.label("perturbed_violating_document");
+        st.label("rejected_as_required");
+        st.nontrivial(&("refs", &all, &case.rule));
+      } else {
+        st.label("consistent_document_rejected(not claimed)");
+      }
+    }
+    Err(p) => fail!(panic_signature(&p), "panic while loading the rule\n{}\n{p}", show()),
+  }
+  Ok(())
+}
+
 pub fn child(path: &std::path::Path) -> i32 {
   std::env::set_var("VPROP_CHILD", "1");
   child_case::<Doc>(path, check_inner)
@@ -987,20 +1206,27 @@ fn stage_opts() -> SrcOpts {
 pub fn run(cfg: &RunCfg) -> i32 {
   let mut report = Report::new(
     cfg,
-    "case = rule document assembled from valid parts (pattern cut from a source with holes/run, optional utility, constraint, 1-3 transformations incl. a dependent chain and a rewrite with rewriter, fix in string or object form using captured and transformed variables) with at most one perturbation: variable renamed in fix / transform source / constraints key, unresolved `matches` or rewriter reference, self- or mutually dependent transformations, a utility requiring itself on the same node through matches/all/any/not/second utility/nthChild.ofRule/inside+has/precedes+follows/has+inside (loaded in a child process), or no kind-determining key. An independent analysis of the document model decides whether a listed condition is violated: violating documents must be rejected; accepted documents must expand every fix variable to the reference value (O-template + reference transforms) and match only kinds of their kind set. Non-trivial = distinct perturbed-violating documents plus accepted documents whose fix uses a transformed variable or the object form.",
+    "case = rule document assembled from valid parts (pattern cut from a source with holes/run, optional utility, constraint, 1-3 transformations incl. a dependent chain and a rewrite with rewriter, fix in string or object form using captured and transformed variables) with at most one perturbation: variable renamed in fix / transform source / constraints key, unresolved `matches` or rewriter reference, self- or mutually dependent transformations, a utility requiring itself on the same node through matches/all/any/not/second utility/nthChild.ofRule/inside+has/precedes+follows/has+inside (loaded in a child process), or no kind-determining key. Stage references: 0-3 global utility rules (body, local utils, constraints) and a rule that uses them, with a fix expansion in 40% of the cases; every `matches` (also under stopBy, nthChild.ofRule, not/any/all and in expandStart/expandEnd) names a defined global or local utility or, one time in three, a name defined nowhere; a set with an unresolved reference must be rejected when it is loaded. An independent analysis of the document model decides whether a listed condition is violated: violating documents must be rejected; accepted documents must expand every fix variable to the reference value (O-template + reference transforms) and match only kinds of their kind set. Non-trivial = distinct perturbed-violating documents plus accepted documents whose fix uses a transformed variable or the object form.",
   );
   report.assume("only the direction accepted => consistent is claimed; rejected consistent documents are counted");
   report.assume("convert is limited to lowerCase/upperCase/capitalize here; case-splitting conversions are enumerated in C20");
   let known = Known::load(&cfg.prop);
   if let Some(path) = &cfg.replay {
+    if read_replay(path).stage == "references" {
+      return crate::replay_main::<RefCase>(cfg, path, check_refs);
+    }
     return crate::replay_main::<Doc>(cfg, path, check);
   }
   let corpus = Corpus::load();
-  crate::replay_known::<Doc>(&mut report, &known, check);
+  crate::replay_known_staged::<Doc>(&mut report, &known, "references", false, check);
+  crate::replay_known_staged::<RefCase>(&mut report, &known, "references", true, check_refs);
   let opts = stage_opts();
   let total = cfg.budget(12_000, 300_000);
   let o = drive(cfg, "docs", total, &known, || strategy(&opts), |c, st| interpret(&corpus, &opts, c, st), check);
   report.absorb("docs", o);
+  let total = cfg.budget(6_000, 100_000);
+  let o = drive(cfg, "references", total, &known, ref_strategy, interpret_refs, check_refs);
+  report.absorb("references", o);
   report.floor("perturbed_violating_document", 0.3, "evaluations");
   crate::fuzz::stage(cfg, &mut report, &known, 20000);
   report.finish()
